@@ -48,9 +48,14 @@ STD = {"abs": (0, 0), "append": (1, 1), "at_least": (1, 1), "at_most": (1, 1), "
 EXTRA = {"push": (1, 1), "pop": (0, 0), "shift": (0, 0), "unshift": (1, 1), "array_to_sentence_string": (0, 1), "slugify": (0, 1), "pluralize": (2, 2), "date_in_tz": (2, 2), "sort": (0, 1)}
 
 
+XF = {"push": "XPush", "pop": "XPop", "shift": "XShift", "unshift": "XUnshift", "array_to_sentence_string": "XSentence", "pluralize": "XPluralize"}
+
+
 def filt_ctor(name):
     if name == "date":
         return C("FD")
+    if name in XF:
+        return C("FX", C(XF[name]))
     if name in tpl.MATH:
         return C("FM", C(tpl.MATH[name]))
     if name in tpl.HTML:
@@ -97,12 +102,12 @@ def f_gen(tier, seed):
                         add(f, x, a, config)
     for i, c in enumerate(cases):
         c["id"] = i
-    dist = {"exhaustive": True, "filters_modelled": len(STD), "filters_explored_only": len(EXTRA), "inputs": len(ins), "arguments": len(args), "cases": len(cases)}
+    dist = {"exhaustive": True, "filters_modelled": len(STD) + len(XF), "filters_explored_only": len(EXTRA) - len(XF), "inputs": len(ins), "arguments": len(args), "cases": len(cases)}
     return cases, dist
 
 
 def f_in_model(c):
-    return c["config"] == "stdlib"
+    return c["config"] == "stdlib" or c["f"] in XF
 
 
 def f_strings(c):
